@@ -151,6 +151,7 @@ def parseDate (s : Str) : Option Nat := (parseImfFixdate s).map secondsOfCivil
 (`None` offset = naive = UTC): the instant is normalised to UTC first (`_dt_as_utc`) -/
 def httpDateAware (c : Civil) (off : Int) : Option Str :=
   let t : Int := (secondsOfCivil c : Int) - off
-  if t < 0 then none else some (httpDate t.toNat)
+  -- `astimezone(utc)` raises OverflowError outside years 1..9999
+  if t < 0 || t ≥ (ymd2ord 9999 12 31 : Int) * 86400 then none else some (httpDate t.toNat)
 
 end Wz.Date
